@@ -1,11 +1,24 @@
-# C17 — concurrent queues.  LOCKSTEP of the real contiguous_index_queue against IndexQueue.v.
+# C17 — concurrent queues.
+#   index queue : LOCKSTEP of the real contiguous_index_queue against Model/IndexQueue.v
+#   deque       : LOCKSTEP of the real deque<uint64_t> against Model/Deque.v (controller-chosen
+#                 interleavings of the hook sites 1711..1719, replayed by the extracted model),
+#                 the F15 witness schedule, sequential DIFF against the list specification
+#   back-ends   : Gen/GenBackends.v is regenerated from lockfree_queue_backends.hpp; sequential DIFF
+#                 of the four back-ends through their own API; the moodycamel FIFO gets DIFF +
+#                 conservation under real concurrency only (TESTING, not proof)
+import collections
 import os
-from vlib import Hit, Result, diff_lines, sh
+import re
+from vlib import COQ, Hit, Result, diff_lines, sh
 
 ASSUMPTIONS = [
-    'sequentially consistent interleaving at LOAD/CAS granularity; compare_exchange_weak never fails spuriously on x86 (the model allows it, the lock-step runs do not exercise it)',
-    'moodycamel ConcurrentQueue internals are specified (bag with per-producer FIFO), not modelled',
+    'sequentially consistent interleaving at LOAD/CAS granularity; compare_exchange_weak never fails spuriously on x86 (the index-queue model allows it, the lock-step runs do not exercise it)',
+    'deque: anchor and link tags are unbounded in the model (16 bit in the code: a wrap within one stalled window is not modelled)',
+    'deque: boost freelist_stack::allocate / deallocate are one atomic step each (their internal CAS loops are not split); the node constructor (two link stores + data) is one step',
+    'moodycamel ConcurrentQueue internals are specified (bag with per-producer FIFO), not modelled: the FIFO back-end is covered by differential and conservation TESTS only',
 ]
+
+ABA_SIG = 'C17:deque:aba_link_tag_reset'
 
 
 def iq_monitor(inl, outl):
@@ -17,13 +30,9 @@ def iq_monitor(inl, outl):
     per = [[] if s == '' else s.split(',') for s in fields['res'].split('|')]
     rest = [] if fields['rest'] == '-' else [int(x) for x in fields['rest'].split(',')]
     popped = []
-    lefts, rights = [], []
-    sawnone = False
     for t in range(T):
         for k, r in enumerate(per[t]):
-            if r == 'n':
-                sawnone = True
-            else:
+            if r != 'n':
                 popped.append(int(r))
     allv = popped + rest
     if len(set(allv)) != len(allv):
@@ -48,19 +57,396 @@ def iq_monitor(inl, outl):
     return None
 
 
+# ------------------------------------------------------------------ deque
+def parse_prog(s):
+    return [] if s in ('-', '') else s.split(',')
+
+
+def list_spec(ops, contents):
+    """the two-ended list specification (python, independent of the Coq model)"""
+    res = []
+    for o in ops:
+        if o[0] == 'l':
+            contents.insert(0, int(o[1:]))
+            res.append('t')
+        elif o[0] == 'r':
+            contents.append(int(o[1:]))
+            res.append('t')
+        elif o == 'L':
+            res.append(str(contents.pop(0)) if contents else 'n')
+        else:
+            res.append(str(contents.pop()) if contents else 'n')
+    return res
+
+
+def fields_of(outl):
+    return dict(x.split('=', 1) for x in outl.split(' ')[3:])
+
+
+def dq_monitor(inl, outl):
+    """exactly-once on one execution of the real deque: popped + drained = pushed as multisets;
+    per-end order and pop-succeeds-on-non-empty when a single thread ran"""
+    p = inl.split(' ')
+    T = int(p[4])
+    init = parse_prog(p[5])
+    progs = [parse_prog(x) for x in p[6:6 + T]]
+    f = fields_of(outl)
+    initres = parse_prog(f['init'])
+    per = [parse_prog(x) for x in f['res'].split('|')]
+    rest = [int(x) for x in parse_prog(f['rest'])]
+    pushed = collections.Counter()
+    popped = collections.Counter()
+    incomplete = False
+    for ops, res in [(init, initres)] + list(zip(progs, per)):
+        if len(res) != len(ops):
+            incomplete = True
+        for o, r in zip(ops, res):
+            if o[0] in 'lr':
+                if r == 't':
+                    pushed[int(o[1:])] += 1
+                else:
+                    return 'push_failed', 'push %s returned %s' % (o, r)
+            elif r != 'n':
+                popped[int(r)] += 1
+    if incomplete:
+        return 'incomplete', 'a thread did not finish its program: %s' % f['res']
+    got = popped + collections.Counter(rest)
+    for v in got:
+        if v not in pushed:
+            return 'invented', 'value %d was returned but never pushed (popped=%s drained=%s)' % (v, dict(popped), rest)
+    for v in got:
+        if got[v] > pushed[v]:
+            return 'duplicate', 'value %d was delivered %d times, pushed %d time(s) (popped=%s drained=%s)' % (
+                v, got[v], pushed[v], sorted(popped.elements()), rest)
+    for v in pushed:
+        if got[v] < pushed[v]:
+            return 'lost', 'value %d was pushed and neither popped nor left in the deque (popped=%s drained=%s)' % (
+                v, sorted(popped.elements()), rest)
+    if T <= 1:
+        cont = []
+        exp_init = list_spec(init, cont)
+        exp = list_spec(progs[0], cont) if T == 1 else []
+        if exp_init != initres or (T == 1 and exp != per[0]) or cont != rest:
+            return 'sequential', 'single-threaded run differs from the two-ended list: got init=%s res=%s rest=%s expected init=%s res=%s rest=%s' % (
+                initres, per[0] if T == 1 else [], rest, exp_init, exp, cont)
+    else:
+        # the main thread's preparation runs alone: it must follow the list exactly
+        cont = []
+        if list_spec(init, cont) != initres:
+            return 'sequential', 'preparation (single thread) differs from the list spec: %s' % initres
+    return None
+
+
+def run_deque_harness(ctx, h, mode, seed, first, count, timeout):
+    """runs the harness, restarting after a case on which the real code crashed or hung.
+    returns (ins, outs, died) with died = [(case id, phase, what, partial IN line)]"""
+    ins, outs, died, errs = {}, {}, [], []
+    cur = first
+    end = first + count
+    guard = 0
+    nhang = 0
+    # a hang costs the watchdog's 20 s: after 2 hangs (or 25 crashes) of the real code the batch is abandoned —
+    # the cases are reported and the check fails anyway
+    while cur < end and guard < 25 and nhang < 2:
+        guard += 1
+        rc, out = sh([h, mode, str(seed), str(cur), str(end - cur)], timeout=timeout)
+        lines = out.split('\n')
+        last_in = None
+        restarted = False
+        for ln in lines:
+            if ln.startswith('IN '):
+                k = ln.split(' ')[2]
+                last_in = ln
+                ins.setdefault(k, ln)
+            elif ln.startswith('OUT '):
+                outs[ln.split(' ')[2]] = ln
+            elif ln.startswith('DIED '):
+                m = re.match(r'DIED case=(-?\d+) phase=(\d+) signal=(\w+)', ln)
+                cid = m.group(1)
+                died.append((cid, int(m.group(2)), m.group(3), last_in if last_in and last_in.split(' ')[2] == cid else ins.get(cid)))
+                cur = int(cid) + 1
+                restarted = True
+                if m.group(3) == 'HANG':
+                    nhang += 1
+            elif ln.startswith('HARNESS-ERROR'):
+                errs.append(ln)
+        if restarted:
+            continue
+        if rc != 0:
+            errs.append('harness exit code %d: %s' % (rc, out[-400:]))
+        break
+    return ins, outs, died, errs
+
+
+def model_replay(drv, inlines):
+    rc, mout = sh([drv], input='\n'.join(inlines) + '\n', timeout=3000)
+    mouts, mods = [], {}
+    for x in mout.split('\n'):
+        if x.startswith('OUT '):
+            mouts.append(x)
+        elif x.startswith('MOD '):
+            p = x.split(' ')
+            mods[p[2]] = dict(y.split('=') for y in p[3:])
+    return mouts, mods
+
+
+def check_deque_cases(ctx, r, drv, label, harness_args, ins, outs, died, errs):
+    """correspondence + monitors for a batch of lock-step cases; returns number of ABA cases"""
+    for e in errs:
+        r.hits.append(Hit('tie', 'C17:deque_harness', 'deque harness (%s) failed: %s' % (label, e),
+                          {'harness': 'c17_deque', 'args': harness_args}))
+    keys = [k for k in ins if k in outs]
+    dead_ins = [d[3] for d in died if d[3]]
+    mouts, mods = model_replay(drv, [ins[k] for k in keys] + dead_ins)
+    moutmap = {x.split(' ')[2]: x for x in mouts}
+    naba = 0
+    ndiff = 0
+    for k in keys:
+        i_, o_ = ins[k], outs[k]
+        m_ = moutmap.get(k)
+        mod = mods.get(k, {})
+        agree = (m_ == o_)
+        aba = mod.get('aba') == '1'
+        naba += 1 if aba else 0
+        p = i_.split(' ')
+        T = int(p[4])
+        nsteps = 0 if p[-1] == '-' else p[-1].count(',') + 1
+        r.count('dq_threads=%d' % T)
+        r.count('dq_pool=%s' % p[3])
+        r.count('dq_sched_len=%s' % ('0' if nsteps == 0 else '1-20' if nsteps <= 20 else '21-60' if nsteps <= 60 else '>60'))
+        if aba:
+            r.count('dq_aba_window_hit')
+        if T >= 2 and nsteps > 0:
+            sched = p[-1].split(',')
+            if len(set(sched)) >= 2:
+                r.nontrivial(i_)
+        r.evaluations += 1
+        if agree:
+            r.traces += 1
+        elif ndiff < 20:
+            ndiff += 1
+            r.hits.append(Hit('corr', 'C17:deque:correspondence',
+                              'deque: implementation and model differ on case %s (%s): impl [%s] model [%s]' % (k, label, o_[:700], (m_ or '<none>')[:700]),
+                              {'harness': 'c17_deque', 'args': harness_args, 'case': i_, 'impl': o_, 'model': m_}))
+        mon = dq_monitor(i_, o_)
+        if mon:
+            sig = ABA_SIG if (agree and aba) else 'C17:deque:' + mon[0]
+            r.hits.append(Hit('monitor', sig, 'lock-free deque (%s, case %s): %s' % (label, k, mon[1]),
+                              {'harness': 'c17_deque', 'args': harness_args, 'case': i_, 'observed': o_,
+                               'model_says_aba': aba, 'model_agrees': agree}))
+        if m_ and mod.get('done') == '1':
+            mm = dq_monitor(i_, m_)
+            if mm and not aba and mm[0] != 'incomplete':
+                r.hits.append(Hit('model', 'C17:deque:model_' + mm[0],
+                                  'the deque MODEL violates exactly-once without a recycled-node link CAS on case %s: %s' % (k, mm[1]),
+                                  {'case': i_, 'model': m_}))
+        r.sample({'input_and_schedule': i_[:400], 'observed': o_[:400]}, cap=4)
+    for (cid, phase, what, inl) in died:
+        aba = mods.get(cid, {}).get('aba') == '1'
+        sig = ABA_SIG if aba else 'C17:deque:' + what.lower()
+        r.evaluations += 1
+        r.hits.append(Hit('monitor', sig,
+                          'lock-free deque (%s): the real code %s in case %s (phase %d: 1 preparation, 2 lock-step, 3 drain)' % (
+                              label, 'crashed' if what == 'CRASH' else 'did not terminate', cid, phase),
+                          {'harness': 'c17_deque', 'args': harness_args, 'case': inl, 'model_says_aba': aba}))
+    return naba
+
+
+# ------------------------------------------------------------------ back-ends
+INTENDED_ENDS = {
+    # (push other_end=false, push other_end=true, owner pop, thief pop) — the documented behaviour
+    'lifo': ('L', 'R', 'L', 'L'),
+    'abp_fifo': ('L', 'L', 'R', 'L'),
+    'abp_lifo': ('L', 'R', 'L', 'R'),
+}
+
+
+def generated_ends():
+    """the table tools/genmods/c17.py derived from lockfree_queue_backends.hpp (Gen/GenBackends.v)"""
+    src = open(COQ + '/Gen/GenBackends.v').read()
+    names = {'Lifo': 'lifo', 'AbpFifo': 'abp_fifo', 'AbpLifo': 'abp_lifo'}
+    tab = {}
+    for fn in ('push_end', 'pop_end'):
+        body = src[src.index('Definition ' + fn):]
+        body = body[:body.index('end.')]
+        for m in re.finditer(r'\|\s*(\w+),\s*(true|false)\s*=>\s*S([LR])', body):
+            tab[(names[m.group(1)], fn, m.group(2) == 'true')] = m.group(3)
+    if len(tab) != 12:
+        raise Exception('GenBackends.v: table incomplete: %s' % tab)
+    return {b: (tab[(b, 'push_end', False)], tab[(b, 'push_end', True)], tab[(b, 'pop_end', False)], tab[(b, 'pop_end', True)])
+            for b in names.values()}
+
+
+def backend_spec(backend, ops, ends):
+    cont = []
+    res = []
+    for o in ops:
+        if backend == 'fifo':
+            if o[0] in 'pP':
+                cont.append(int(o[1:]))
+                res.append('t')
+            else:
+                res.append(str(cont.pop(0)) if cont else 'n')
+            continue
+        e = ends[backend]
+        if o[0] in 'pP':
+            side = e[0] if o[0] == 'p' else e[1]
+            if side == 'L':
+                cont.insert(0, int(o[1:]))
+            else:
+                cont.append(int(o[1:]))
+            res.append('t')
+        else:
+            side = e[2] if o == 'o' else e[3]
+            if not cont:
+                res.append('n')
+            else:
+                res.append(str(cont.pop(0) if side == 'L' else cont.pop()))
+    # drained with owner pops
+    rest = []
+    while cont:
+        if backend == 'fifo':
+            rest.append(cont.pop(0))
+        else:
+            rest.append(cont.pop(0) if ends[backend][2] == 'L' else cont.pop())
+    return 'res=%s rest=%s' % (','.join(res), ','.join(str(x) for x in rest) if rest else '-')
+
+
+def run_backends(ctx, r, h, seed, n):
+    rc, out = sh([h, str(seed), str(n)], timeout=900)
+    lines = out.split('\n')
+    args = [seed, n]
+    if rc != 0:
+        r.hits.append(Hit('monitor' if rc in (4, 5) else 'tie', 'C17:backends:harness_died' if rc in (4, 5) else 'C17:fifo_harness',
+                          'back-end harness exited with %d (4 = hang, 5 = crash of the code under test): %s' % (rc, out[-400:]),
+                          {'harness': 'c17_fifo', 'args': args}))
+    try:
+        gen = generated_ends()
+    except Exception as e:
+        r.hits.append(Hit('tie', 'C17:backends:table', 'cannot read the generated back-end table: %r' % e, {}))
+        gen = INTENDED_ENDS
+    r.extra['backend_ends_generated'] = {k: dict(zip(('push', 'push_other_end', 'owner_pop', 'thief_pop'), v)) for k, v in gen.items()}
+    ins = {}
+    nseq = nconc = 0
+    for ln in lines:
+        p = ln.split(' ')
+        if ln.startswith('IN '):
+            ins[(p[1], p[2])] = ln
+        elif ln.startswith('OUT SEQ '):
+            i_ = ins.get(('SEQ', p[2]))
+            if not i_:
+                continue
+            ip = i_.split(' ')
+            backend, ops = ip[3], parse_prog(ip[4] if len(ip) > 4 else '-')
+            got = ' '.join(p[3:])
+            nseq += 1
+            r.evaluations += 1
+            r.count('backend_seq=%s' % backend)
+            want = backend_spec(backend, ops, INTENDED_ENDS)      # the property: documented order per end
+            if got != want:
+                r.hits.append(Hit('monitor', 'C17:backend:%s:order' % backend,
+                                  'back-end %s, single thread: ops %s returned [%s], the documented order gives [%s]' % (backend, ip[4][:300], got[:300], want[:300]),
+                                  {'harness': 'c17_fifo', 'args': args, 'case': i_, 'observed': ln}))
+            wantg = backend_spec(backend, ops, gen)              # correspondence with the translated table
+            if got == wantg:
+                r.traces += 1
+            else:
+                r.hits.append(Hit('corr', 'C17:backend:%s:table' % backend,
+                                  'back-end %s: the implementation does not follow the table translated from the header on %s: got [%s] table gives [%s]' % (
+                                      backend, ip[4][:300], got[:300], wantg[:300]),
+                                  {'harness': 'c17_fifo', 'args': args, 'case': i_, 'observed': ln}))
+        elif ln.startswith('OUT CONC '):
+            i_ = ins.get(('CONC', p[2]), '')
+            f = dict(x.split('=', 1) for x in p[3:] if '=' in x)
+            nconc += 1
+            r.evaluations += 1
+            r.count('backend_conc=%s' % (i_.split(' ')[3] if i_ else '?'))
+            if f.get('ok') != '1':
+                kind = 'duplicate' if f.get('dup', '0') != '0' else 'lost' if f.get('lost', '0') != '0' else \
+                    'invented' if f.get('invented', '0') != '0' else 'order' if f.get('order', '0') != '0' else 'failed'
+                r.hits.append(Hit('monitor', 'C17:backend:%s:conc_%s' % (i_.split(' ')[3] if i_ else '?', kind),
+                                  'back-end under real concurrency: %s -> %s' % (i_, ln),
+                                  {'harness': 'c17_fifo', 'args': args, 'case': i_, 'observed': ln}))
+    tot = r.extra.setdefault('_backend_counts', [0, 0])
+    tot[0] += nseq
+    tot[1] += nconc
+    r.extra['fifo_backend_testing_only'] = ('lockfree_fifo (moodycamel): %d sequential DIFF cases over all back-ends and %d '
+                                            'concurrent conservation/per-producer-order runs — TESTING, not proof' % (tot[0], tot[1]))
+    if nseq == 0:
+        r.hits.append(Hit('tie', 'C17:fifo_harness', 'back-end harness produced no cases: %s' % out[-300:], {'harness': 'c17_fifo', 'args': args}))
+
+
+def replay(ctx, r, drv, h_iq, h_dq, h_ff):
+    """re-run the case stored in a replay file (deque cases individually, other harnesses as a whole)"""
+    import json
+    data = json.load(open(ctx.replay))
+    rp = data.get('replay') or {}
+    hn, args, case = rp.get('harness'), [str(a) for a in rp.get('args', [])], rp.get('case') or ''
+    r.rule = 'replay of %s' % ctx.replay
+    if hn == 'c17_deque':
+        p = case.split(' ')
+        if args and args[0] == 'witness' or (len(p) > 2 and p[2] == 'w'):
+            hargs = ['witness', 0, 0, 1]
+        elif args and args[0] == 'seq':
+            hargs = ['seq', int(args[1]), int(p[2]) if len(p) > 2 else int(args[2]), 1]
+        else:
+            hargs = ['lock', int(args[1]), int(p[2]) if len(p) > 2 and p[2].isdigit() else int(args[2]), 1]
+        ins, outs, died, errs = run_deque_harness(ctx, h_dq, hargs[0], hargs[1], hargs[2], hargs[3], 300)
+        if hargs[0] == 'seq':
+            for k in outs:
+                ops = parse_prog(ins[k].split(' ')[4])
+                cont = []
+                exp = list_spec(ops, cont)
+                want = 'OUT DS %s res=%s rest=%s' % (k, ','.join(exp), ','.join(str(x) for x in cont) if cont else '-')
+                r.evaluations += 1
+                if outs[k] != want:
+                    r.hits.append(Hit('monitor', 'C17:deque:sequential', 'replay: returned [%s], the list gives [%s]' % (outs[k][:300], want[:300]),
+                                      {'harness': 'c17_deque', 'args': hargs, 'case': ins[k], 'observed': outs[k]}))
+            for (cid, phase, what, inl) in died:
+                r.hits.append(Hit('monitor', 'C17:deque:seq_' + what.lower(), 'replay: the real code %s' % what, {'harness': 'c17_deque', 'args': hargs, 'case': inl}))
+        else:
+            check_deque_cases(ctx, r, drv, 'replay', hargs, ins, outs, died, errs)
+    elif hn == 'c17_fifo':
+        run_backends(ctx, r, h_ff, int(args[0]), int(args[1]))
+    elif hn == 'c17_iq':
+        rc, out = sh([h_iq] + args, timeout=3000)
+        lines = out.split('\n')
+        ins = [x for x in lines if x.startswith('IN ')]
+        outs = [x for x in lines if x.startswith('OUT ')]
+        for i_, o_ in zip(ins, outs):
+            r.evaluations += 1
+            m = iq_monitor(i_, o_)
+            if m:
+                r.hits.append(Hit('monitor', 'C17:iq:' + m[0], 'contiguous_index_queue: ' + m[1],
+                                  {'harness': 'c17_iq', 'args': args, 'case': i_, 'observed': o_}))
+    else:
+        r.notes.append('nothing to replay in %s' % ctx.replay)
+    return r
+
+
 def run(ctx):
     r = Result()
-    r.rule = ('LOCKSTEP: the harness generates (range, thread count 1..5, per-thread pop_left/pop_right programs) from '
-              'VERIF_SEED, the controller picks the interleaving of LOAD/CAS steps on the real queue, the extracted model '
-              'replays the same schedule; a case is non-trivial when >=2 threads interleave on a non-empty range or a '
-              'CAS fails; distinct = distinct (input,schedule) lines')
+    r.rule = ('LOCKSTEP: harnesses generate (container contents, thread count, per-thread programs) from VERIF_SEED; the '
+              'controller picks the interleaving of the atomic steps of the real container (index queue: LOAD/CAS; deque: '
+              'alloc, init, anchor load/check/CAS, link load/store/CAS, free), biased to long stalls of one thread; the '
+              'extracted model replays the same schedule and must predict every step (site, function, node numbered by first '
+              'appearance), every return value and the drained contents. A case is non-trivial when >=2 threads interleave; '
+              'distinct = distinct (input,schedule) lines. Sequential DIFF against the two-ended list; back-ends: DIFF + '
+              'conservation under real concurrency (testing)')
     ctx.build_pika()
     drv = ctx.build_model('C17', 'ExtractC17.v', 'drv_c17.ml')
     h_iq = ctx.build_harness('c17_iq', 'c17_iq.cpp')
-    n = 3000 if ctx.tier == 'quick' else 60000
-    seeds = [ctx.seed] if ctx.tier == 'quick' else [ctx.seed + k for k in range(4)]
+    h_dq = ctx.build_harness('c17_deque', 'c17_deque.cpp', extra=['-mcx16'])
+    h_ff = ctx.build_harness('c17_fifo', 'c17_fifo.cpp', extra=['-mcx16'])
+    quick = ctx.tier == 'quick'
+    if ctx.replay:
+        return replay(ctx, r, drv, h_iq, h_dq, h_ff)
+
+    # ---------------- index queue
+    n = 3000 if quick else 60000
+    seeds = [ctx.seed] if quick else [ctx.seed + k for k in range(4)]
     for sd in seeds:
-        rc, out = sh([h_iq, str(sd), str(n)], timeout=300 if ctx.tier == 'quick' else 3000)
+        rc, out = sh([h_iq, str(sd), str(n)], timeout=300 if quick else 3000)
         lines = out.split('\n')
         if rc != 0:
             r.hits.append(Hit('tie', 'C17:iq_harness', 'index-queue harness failed rc=%d: %s' % (rc, out[-500:]),
@@ -71,14 +457,12 @@ def run(ctx):
         mouts = [x for x in mout.split('\n') if x.startswith('OUT ')]
         diffs, ncases = diff_lines(ctx, outs, mouts)
         r.evaluations += ncases
-        r.traces += ncases
+        r.traces += ncases - len(diffs)
         inmap = {(x.split(' ')[1], x.split(' ')[2]): x for x in ins}
         ins = ins[:len(outs)]
         for i_, o_ in zip(ins, outs):
             p = i_.split(' ')
             T = int(p[5])
-            sites = o_.split(' ')[3]
-            nfail = sites.count('2,2') + sites.count('2,1')  # rough: a CAS followed by reload
             r.count('threads=%d' % T)
             r.count('range_len=%d' % min(int(p[4]) - int(p[3]), 8))
             if T >= 2 and int(p[4]) > int(p[3]):
@@ -93,4 +477,76 @@ def run(ctx):
                               {'harness': 'c17_iq', 'args': [sd, n], 'case': inmap.get(k), 'impl': a, 'model': b}))
         for s in list(zip(ins, outs))[:2]:
             r.sample({'input_and_schedule': s[0], 'observed': s[1]})
+
+    # ---------------- deque: the F15 witness on the real container
+    ins, outs, died, errs = run_deque_harness(ctx, h_dq, 'witness', 0, 0, 1, 120)
+    rcw, wout = sh([drv], input='IN WITNESS\n', timeout=60)
+    wl = [x for x in wout.split('\n') if x.startswith('OUT WITNESS')]
+    wit_ok = False
+    if wl and 'w' in ins:
+        f = dict(x.split('=', 1) for x in wl[0].split(' ')[2:])
+        p = ins['w'].split(' ')
+        same = (p[3] == f['k'] and p[5] == f['init'] and p[6] == f['p0'] and p[7] == f['p1'] and p[8] == f['sched'])
+        if not same:
+            r.hits.append(Hit('corr', 'C17:deque:witness_schedule',
+                              'the real deque does not execute the schedule of deque_aba_refuted: harness [%s] Coq witness [%s]' % (ins['w'][:500], wl[0][:500]),
+                              {'harness': 'c17_deque', 'args': ['witness'], 'case': ins.get('w')}))
+        wit_ok = same
+    else:
+        r.hits.append(Hit('tie', 'C17:deque:witness', 'witness run produced no case: %s %s' % (errs, wout[-300:]), {'harness': 'c17_deque', 'args': ['witness']}))
+    before = len([h for h in r.hits if h.signature == ABA_SIG])
+    check_deque_cases(ctx, r, drv, 'F15 witness', ['witness'], ins, outs, died, errs)
+    reproduced = len([h for h in r.hits if h.signature == ABA_SIG]) > before
+    r.extra['f15_witness'] = {'schedule_matches_coq_witness': wit_ok, 'duplicate_and_loss_observed_on_real_deque': reproduced,
+                              'observed': outs.get('w', '')[-120:]}
+    if wit_ok and not reproduced and not [h for h in r.hits if h.kind in ('corr', 'monitor') and 'witness' in h.detail]:
+        r.notes.append('F15 witness executed but produced no violation on the implementation')
+
+    # ---------------- deque: generated lock-step cases
+    ncase = 6000 if quick else 30000
+    naba = 0
+    for sd in seeds:
+        ins, outs, died, errs = run_deque_harness(ctx, h_dq, 'lock', sd, 0, ncase, 600 if quick else 3000)
+        naba += check_deque_cases(ctx, r, drv, 'lock-step seed %d' % sd, ['lock', sd, 0, ncase], ins, outs, died, errs)
+        if len(outs) + len(died) < ncase and not errs and not died:
+            r.hits.append(Hit('tie', 'C17:deque_harness', 'lock-step harness ran only %d of %d cases' % (len(outs), ncase),
+                              {'harness': 'c17_deque', 'args': ['lock', sd, 0, ncase]}))
+    r.extra['deque_cases_in_which_a_link_cas_hit_a_recycled_node'] = naba
+
+    # ---------------- deque: sequential DIFF (model and python list spec)
+    nseq = 1500 if quick else 20000
+    for sd in seeds:
+        ins, outs, died, errs = run_deque_harness(ctx, h_dq, 'seq', sd, 0, nseq, 600 if quick else 3000)
+        for e in errs:
+            r.hits.append(Hit('tie', 'C17:deque_harness', 'sequential deque harness failed: %s' % e, {'harness': 'c17_deque', 'args': ['seq', sd, 0, nseq]}))
+        keys = [k for k in ins if k in outs]
+        mouts, _ = model_replay(drv, [ins[k] for k in keys])
+        mm = {x.split(' ')[2]: x for x in mouts}
+        nd = 0
+        for k in keys:
+            p = ins[k].split(' ')
+            ops = parse_prog(p[4])
+            cont = []
+            exp = list_spec(ops, cont)
+            want = 'OUT DS %s res=%s rest=%s' % (k, ','.join(exp), ','.join(str(x) for x in cont) if cont else '-')
+            r.evaluations += 1
+            r.count('dq_seq_len=%s' % ('<=40' if len(ops) <= 40 else '>40'))
+            if outs[k] != want:
+                r.hits.append(Hit('monitor', 'C17:deque:sequential',
+                                  'deque, one thread, %d operations (pool %s): returned [%s], the two-ended list gives [%s]' % (len(ops), p[3], outs[k][:300], want[:300]),
+                                  {'harness': 'c17_deque', 'args': ['seq', sd, int(k), 1], 'case': ins[k], 'observed': outs[k]}))
+            if mm.get(k) == outs[k]:
+                r.traces += 1
+            elif nd < 10:
+                nd += 1
+                r.hits.append(Hit('corr', 'C17:deque:seq_correspondence',
+                                  'deque (sequential): implementation [%s] model [%s]' % (outs[k][:300], (mm.get(k) or '<none>')[:300]),
+                                  {'harness': 'c17_deque', 'args': ['seq', sd, int(k), 1], 'case': ins[k]}))
+        for (cid, phase, what, inl) in died:
+            r.hits.append(Hit('monitor', 'C17:deque:seq_' + what.lower(), 'deque, one thread: the real code %s on case %s' % (what, cid),
+                              {'harness': 'c17_deque', 'args': ['seq', sd, int(cid), 1], 'case': inl}))
+
+    # ---------------- back-ends (testing)
+    for sd in seeds:
+        run_backends(ctx, r, h_ff, sd, 600 if quick else 6000)
     return r
